@@ -211,7 +211,8 @@ static void refuse_to_patch(std::ostream& out, std::ios_base::openmode mode, con
     out << " refusing to patch\n";
     inform_hunks_failed(out, "ignored", patch.hunks, patch.hunks.size());
 
-    if (!options.dry_run) {
+    // NOTE: a patch without any hunk (such as a change of mode only) has nothing to save.
+    if (!options.dry_run && !patch.hunks.empty()) {
         const auto reject_file = reject_path(options, output_file);
         out << " -- saving rejects to file " << reject_file;
         ensure_parent_directories(reject_file);
